@@ -30,7 +30,7 @@ check("C13", "model_checking",
       "DESIGN.md §5 C13", "mc")
 
 check("C12", "model_checking",
-      "loom (DPOR) explores every interleaving, up to 3 (quick) / 4 (thorough) preemptions, of the real wait_for_credit / wait_for_reconnect with 1-3 signalling threads (all pairs of 10 credit scripts and 8 reconnect scripts; all triples in thorough) and a virtual-clock thread. A missed wake-up leaves the waiter blocked with all other threads finished (loom deadlock); every returned value is checked against all sequential orders of the signalling operations; timeouts must occur at, not before and not after, the virtual deadline.",
+      "loom (DPOR) explores every interleaving, up to 3 (quick) / 4 (thorough; 3 for the three-signaller harnesses) preemptions, of the real wait_for_credit / wait_for_reconnect with 1-3 signalling threads (all pairs of 13 credit scripts and 10 reconnect scripts; all triples in thorough) and a virtual-clock thread. A missed wake-up leaves the waiter blocked with all other threads finished (loom deadlock); every returned value is checked against all sequential orders of the signalling operations; timeouts must occur at, not before and not after, the virtual deadline.",
       "Sequentially consistent interleavings at lock/condvar granularity within the preemption bound; timed waits wake only on notification or virtual-clock expiry (no other spurious wake-ups); std's Condvar itself is trusted.",
       "stateless model checking of the real code under loom's controlled scheduler (preemption-bounded DPOR) with a linearization oracle",
       "DESIGN.md §5 C12", "lm")
